@@ -190,7 +190,7 @@ def main(ctx):
     for name, opts in L.CHEAP:
         for sp in ([0, 3, 4, 5, 8, 11, 1, 2, 6, 7, 9, 10, 0, 3, 4], [4, 8]):
             cases.append({"space": sp, "sampler": name, "opts": opts, "bs": 9, "seed": S, "n": 40, "pattern": "ties"})
-    for name, opts in L.COSTLY[2:]:
+    for name, opts in [x for x in L.COSTLY if x[0] != "CORS"]:
         cases.append({"space": [0, 3, 4, 5, 8, 11, 1, 2], "sampler": name, "opts": opts, "bs": 6, "seed": S, "n": 30, "pattern": "distinct"})
     # state carried between two uses of one object: after the three calls, two more calls on a SECOND space of the same dimension
     for c in list(cases):
